@@ -32,7 +32,11 @@ fn main() {
         std::process::exit(2);
     }
     // panics of the code under test are data: keep them quiet, they are reported in results
-    std::panic::set_hook(Box::new(|_| {}));
+    if std::env::var("PDBH_PANICS").is_ok() {
+        std::panic::set_hook(Box::new(|i| eprintln!("PANIC: {i}")));
+    } else {
+        std::panic::set_hook(Box::new(|_| {}));
+    }
     let args = parse_args(&argv[2..]);
     let code = match argv[1].as_str() {
         "pdb-replay" => pdb::cmd_replay(&args),
